@@ -117,7 +117,7 @@ def run(ctx):
         ok = bool(tests) and bool(pd)
         w = None
         for t in tests:
-            starts = [b for (b, l) in gr.succ[t] if l == "T"]
+            starts = [b for (b, l) in gr.succ[t] if l == "T" and b not in pd]
             loop = gr.loops_of(t)
             ends = ([loop[-1]] if loop else []) + [gr.exit]
             got = gr.reach(starts, avoid=pd, include_src=True)
